@@ -98,57 +98,78 @@ func (w *txWorld) c11StoredCopies() {
 
 func TestVerif_C11(t *testing.T) {
 	rep := verifkit.NewReport("C11")
-	rep.Rule = "DD: the C03/C05 histories (deliveries from every source, conflicts, confirmations) with clean restarts (save what Run saves at shutdown, new Node on the same storage) inserted at generated quiescent points; at every restart the unconfirmed set read through an accessor before and after must be identical (txids, unsafe/safe/trusted, first-seen time in ms); afterwards re-announcements must not deliver again, confirmations of transactions delivered before the restart must be state updates with a valid proof, GetTx must return the delivered transaction. Plus a component round trip of the unconfirmed file with all 8 flag combinations. Non-trivial = at least one unconfirmed relevant tx at a restart; distinct by step-shape string"
-	rep.Assumptions = []string{"clean restart = the three saves Run performs at shutdown, then NewNode+load on the same store (the L1 engine does this through Run/Stop)", "safe-once across restart is checked by the C07 engine (needs the delay checker)"}
+	rep.Rule = "DD: the C03/C05 histories (deliveries from every source, conflicts, confirmations) with clean restarts (save what Run saves at shutdown, new Node on the same storage) and delay-checker iterations inserted at generated quiescent points; no transaction is reported safe twice; at every restart the unconfirmed set read through an accessor before and after must be identical (txids, unsafe/safe/trusted, first-seen time in ms); afterwards re-announcements must not deliver again, confirmations of transactions delivered before the restart must be state updates with a valid proof, GetTx must return the delivered transaction. Plus a component round trip of the unconfirmed file with all 8 flag combinations. Non-trivial = at least one unconfirmed relevant tx at a restart; distinct by step-shape string"
+	rep.Assumptions = []string{"clean restart = the three saves Run performs at shutdown, then NewNode+load on the same store (the L1 engine does this through Run/Stop)", "the delay checker is re-issued as a step (one iteration of checkTxDelays with every delay elapsed); the real goroutine runs in the C07 engine"}
 	defer rep.Write()
 	n := verifkit.N(2000, 100000)
 	for ci := 0; ci < n; ci++ {
 		if !verifkit.Mine(ci) {
 			continue
 		}
-		r := verifkit.Rand("C11", ci)
-		// a C03-style history, restarts forced in
-		w, fp, err := c03ScenarioOpt(r, r.Intn(3) == 0, true)
-		if err != nil {
-			rep.Inconc(ci, err.Error())
-			continue
-		}
-		w.checkC03(2)
-		w.checkC04(2)
-		w.c11StoredCopies()
-		// confirmation of a tx delivered before: update, not new
-		evs := w.e.log.snapshot()
-		for _, ti := range w.txs {
-			if !ti.relevant || ti.processedUnconf == 0 || len(ti.confirmedAt) == 0 || ti.orphaned > 0 {
-				continue
+		ci := ci
+		verifkit.RunCase(rep, ci, func() {
+			r := verifkit.Rand("C11", ci)
+			// a C03-style history, restarts forced in
+			w, fp, err := c03ScenarioOpt(r, r.Intn(3) == 0, true)
+			if err != nil {
+				rep.Inconc(ci, err.Error())
+				return
 			}
-			firstTx := -1
-			for _, ev := range evs {
-				if ev.Handler == 0 && ev.TxID == ti.id && ev.Kind == "tx" {
-					if firstTx >= 0 {
-						w.find("C11", "C11/confirmation-delivered-as-new", fmt.Sprintf("%s was delivered unconfirmed and later delivered as new again", ti.name))
+			w.checkC03(2)
+			w.checkC04(2)
+			w.c11StoredCopies()
+			// confirmation of a tx delivered before: update, not new
+			evs := w.e.log.snapshot()
+			for _, ti := range w.txs {
+				if !ti.relevant || ti.processedUnconf == 0 || len(ti.confirmedAt) == 0 || ti.orphaned > 0 {
+					continue
+				}
+				firstTx := -1
+				for _, ev := range evs {
+					if ev.Handler == 0 && ev.TxID == ti.id && ev.Kind == "tx" {
+						if firstTx >= 0 {
+							w.find("C11", "C11/confirmation-delivered-as-new", fmt.Sprintf("%s was delivered unconfirmed and later delivered as new again", ti.name))
+						}
+						firstTx = ev.Seq
 					}
-					firstTx = ev.Seq
 				}
 			}
-		}
-		for _, f := range w.finds {
-			if f.prop == "C11" || (f.prop == "C03" && containsAny(fp, "S")) || f.prop == "C04" {
-				sig := f.sig
-				if f.prop != "C11" {
-					sig = "C11/after-restart/" + f.sig
+			// reported safe (while unconfirmed) at most once, restarts included
+			for _, ti := range w.txs {
+				if ti.orphaned > 0 {
+					continue
 				}
-				rep.Finding(ci, sig, f.detail, w.witness())
-			} else {
-				rep.Event("other_property_findings:"+f.sig, 1)
+				nSafe := 0
+				for _, ev := range evs {
+					if ev.Handler == 0 && ev.TxID == ti.id && ev.Kind == "update" && ev.State.Safe && ev.State.MerkleProof == nil {
+						nSafe++
+					}
+				}
+				if nSafe > 0 {
+					rep.Event("safe_reports_checked", 1)
+				}
+				if nSafe > 1 {
+					w.find("C11", "C11/reported-safe-again", fmt.Sprintf("%s was reported safe %d times (history %s)", ti.name, nSafe, fp))
+				}
 			}
-		}
-		rep.Event("histories", 1)
-		rep.Event("restarts", int64(countRune(fp, 'S')))
-		rep.Case(fp, containsAny(fp, "S"))
-		if rep.WantSample() {
-			rep.Sample(w.witness())
-		}
+			for _, f := range w.finds {
+				if f.prop == "C11" || (f.prop == "C03" && containsAny(fp, "S")) || f.prop == "C04" {
+					sig := f.sig
+					if f.prop != "C11" {
+						sig = "C11/after-restart/" + f.sig
+					}
+					rep.Finding(ci, sig, f.detail, w.witness())
+				} else {
+					rep.Event("other_property_findings:"+f.sig, 1)
+				}
+			}
+			rep.Event("histories", 1)
+			rep.Event("restarts", int64(countRune(fp, 'S')))
+			rep.Case(fp, containsAny(fp, "S"))
+			if rep.WantSample() {
+				rep.Sample(w.witness())
+			}
+		})
 	}
 	// component: unconfirmed file round trip, all flag combinations
 	if verifkit.Mine(0) {
